@@ -163,6 +163,11 @@ def check_case(ctx, c, k_cache):
         # consumes the values out of step; BOTH sides refuse, the exception class then depends on which Python value meets
         # which primitive (TypeError / ValueError / ...): not a behaviour the model claims to describe
         ctx.dist['unscoped: both compiled encoders refuse, classes differ'] += 1
+    elif not eq and not fl['scoped'] and ec[0] == 'err' and ec[1] in (8, 9, 10, 11, 12):
+        # ... or only the implementation refuses, with a plain Python exception (a value of the wrong kind met a
+        # primitive: ValueError / IndexError / KeyError / TypeError / AttributeError), where the model, whose values
+        # are untyped tokens, goes on: the same out-of-step consumption, not compared either
+        ctx.dist['unscoped: the compiled encoder refuses with a Python-level exception, the model goes on'] += 1
     elif not eq:
         ctx.compare(case, 'impl-compiled', 'model-compiled', kind='C08-model-encode', holds=lambda: e[:2] == ec[:2],
                     extra=dict(detail=detail, **fl))
@@ -194,6 +199,8 @@ def check_case(ctx, c, k_cache):
     eq, detail = compare_with_model(dc, mo)
     if not eq and not fl['scoped'] and dc[0] == 'err' and mo.startswith('err'):
         ctx.dist['unscoped: both compiled decoders refuse, classes differ'] += 1
+    elif not eq and not fl['scoped'] and dc[0] == 'err' and dc[1] in (8, 9, 10, 11, 12):
+        ctx.dist['unscoped: the compiled decoder refuses with a Python-level exception, the model goes on'] += 1
     elif not eq and not ('ulp=1' in detail and 'scale=-' in detail):
         ctx.compare(case, 'impl-compiled', 'model-compiled', kind='C08-model-decode', holds=lambda: same_dec(di, dc),
                     extra=dict(detail=detail, **fl))
